@@ -170,6 +170,9 @@ func validateStreams(env *Environment, errorSink *validation.ErrorSink) *Environ
 			}
 
 			self.VisitChildren(node, node)
+		case *SimpleType:
+			// type arguments are not at the top level
+			self.VisitChildren(node, node)
 		case *GeneralizedType:
 			// Only the dimensionality of the step's own type is at the top level; the items are not.
 			if t.Dimensionality != nil {
